@@ -93,8 +93,42 @@ def run(run, outdir, seed, tier, BIN, SPEC):
         info["errors"].append("lock program extraction failed: " + p.stdout[-600:])
         return info, None
     P = json.load(open(progs))
+    # a call that does not even complete when run alone in a fresh process
+    for k in sorted(P):
+        if "failed" in P[k]:
+            why = P[k]["failed"]
+            key = "locks:alone:%s:%s" % (k, "deadlock" if why == "TIMEOUT" else "panic")
+            counts[key] = 1
+            fails.append({"kind": "alone", "op": k, "key": key, "round": 0, "seed": seed,
+                          "detail": "call %s run alone in a fresh process %s" % (k, "did not complete within 30 s (deadlock)" if why == "TIMEOUT" else "failed: " + why[:400]), "trace": []})
+    P = {k: v for k, v in P.items() if "failed" not in v}
     kinds = sorted(P)
     programs = {k: program(P[k]["first"]) for k in kinds}
+    # Every Once gate gets the initialiser of its cell, also where the extraction run found the cell
+    # initialised already (the gate then showed no body): bodies are taken from the runs that executed them.
+    bodies = {}
+    for k in kinds:
+        pr = programs[k]
+        for j, x in enumerate(pr):
+            if x[0] == "oe" and x[2] > 0:
+                bodies.setdefault(x[1], pr[j + 1:j + 1 + x[2]])
+
+    def expand(pr):
+        out, j = [], 0
+        while j < len(pr):
+            x = pr[j]
+            if x[0] == "oe":
+                has_od = x[2] > 0 or (j + 1 < len(pr) and pr[j + 1] == ["od", x[1]])
+                body = expand(pr[j + 1:j + 1 + x[2]]) if x[2] > 0 else expand(bodies.get(x[1], []))
+                out.append(["oe", x[1], len(body)])
+                out.extend(body)
+                out.append(["od", x[1]])
+                j += x[2] + (2 if has_od else 1)
+            else:
+                out.append(x)
+                j += 1
+        return out
+    programs = {k: expand(programs[k]) for k in kinds}
     # a later call must be the first-use program with every initialiser skipped
     for k in kinds:
         later = [[CODE[e[2]], e[3]] for e in P[k]["later"] if e[2] in CODE]
